@@ -40,8 +40,9 @@ func (c05Prop) Phases(tier string) []PhaseCfg {
 }
 
 type c05Case struct {
-	Tree *TreeCase
-	Argv []string
+	Tree   *TreeCase
+	Argv   []string
+	Stream StreamPlan
 }
 
 func (c *c05Case) Describe() interface{} {
@@ -49,7 +50,7 @@ func (c *c05Case) Describe() interface{} {
 	for i, p := range c.Tree.Path {
 		path = append(path, fmt.Sprintf("L%d %s: Before %s; Action %s; After %s", i, p.Tag, p.Before, p.Action, p.After))
 	}
-	return map[string]interface{}{"argv": c.Argv, "path": path, "app": c.Tree.App.Describe()}
+	return map[string]interface{}{"argv": c.Argv, "path": path, "app": c.Tree.App.Describe(), "stream": c.Stream.String()}
 }
 
 func drawCB(t *Tape, rich bool) CB {
@@ -117,7 +118,21 @@ func (c05Prop) Gen(t *Tape, ph *PhaseCfg) Case {
 		}
 		return cb
 	}})
-	return &c05Case{Tree: tc, Argv: tc.Argv()}
+	c := &c05Case{Tree: tc, Argv: tc.Argv()}
+	// some callbacks print their command's help (public API) before doing what they do; the stream may be faulty
+	// (only callbacks of the addressed command: printing the help of a command re-initialises its sub-commands,
+	// which panics with "duplicate option name" when one of them was already initialised and declares options -
+	// a quirk of the library that is outside this property)
+	if t.Draw(4) == 0 {
+		l := tc.Path[len(tc.Path)-1]
+		for _, cb := range []*CB{&l.Before, &l.Action, &l.After} {
+			if cb.Kind != CBAbsent && t.Draw(2) == 0 {
+				cb.Help = 1 + t.Draw(2)
+			}
+		}
+		c.Stream = drawStream(t)
+	}
+	return c
 }
 
 // c05Model is the reference model: it returns the expected event sequence and the name of
@@ -183,6 +198,7 @@ func (c05Prop) Exec(cc Case, st *Stats) *Violation {
 func c05Prepare(c *c05Case, id int) *Prepared {
 	path := c.Tree.Path
 	p := NewProc(id)
+	p.Stream = c.Stream
 	var inst *Instance
 	body := func() error {
 		inst = Build(c.Tree.App, p)
@@ -207,6 +223,7 @@ func c05Prepare(c *c05Case, id int) *Prepared {
 		}
 		for k := 1; k <= 2; k++ {
 			pk := NewProc(10 + k)
+			pk.Stream = c.Stream
 			inst.Proc = pk
 			RunProc(pk, func() error { return inst.Cli.Run(c.Argv) })
 			st.Count("reach.same_app_run_again")
